@@ -114,7 +114,11 @@ type Obs struct {
 	Checks  map[string][]int    // label -> return codes of output checks, in order
 	Anom    []string            // X lines (helper-level anomalies)
 	Order   []string            // S/E lines in file order: "S label" / "E label" / "F label"
+	ShellPids []int             // parent pids of the command helpers (the target shells)
 }
+
+// ReadTrace parses the trace lines of one build id.
+func (e *Env) ReadTrace(build string) *Obs { return e.readTrace(build) }
 
 func (e *Env) readTrace(build string) *Obs {
 	o := &Obs{Build: build, Started: map[string]int{}, Ended: map[string]int{}, Failed: map[string]int{},
@@ -135,6 +139,12 @@ func (e *Env) readTrace(build string) *Obs {
 		case "S":
 			o.Started[fs[2]]++
 			o.Order = append(o.Order, "S "+fs[2])
+			if len(fs) > 4 {
+				var sp int
+				if _, err := fmt.Sscan(fs[4], &sp); err == nil {
+					o.ShellPids = append(o.ShellPids, sp)
+				}
+			}
 		case "E":
 			o.Ended[fs[2]]++
 			o.Order = append(o.Order, "E "+fs[2])
